@@ -119,6 +119,8 @@ class DDLParser(Parser, Dialects):
             self.lexer.sequence = True
         elif t.type == "CHECK":
             self.lexer.check = True
+            # the clause ends where its parenthesis closes (see set_parenthesis_tokens)
+            self.lexer.check_depth = self.lexer.lp_open
 
     def t_EQ(self, t: LexToken) -> LexToken:
         r"(=)+"
@@ -243,6 +245,11 @@ class DDLParser(Parser, Dialects):
                 self.lexer.lp_open -= 1
                 if not self.lexer.lp_open:
                     self.lexer.after_columns = True
+                if self.lexer.check and self.lexer.lp_open <= getattr(
+                    self.lexer, "check_depth", 0
+                ):
+                    # end of the CHECK (...) clause: '<' and '>' are type brackets again
+                    self.lexer.check = False
             self.lexer.last_par = t.type
 
     def set_lexx_tags(self, t: LexToken):
